@@ -149,9 +149,17 @@ def __parse_unit_string_to_list(unit_string: str) -> List[Union[str, List]]:
     raw_tokens_list = []  # The raw list of tokens
     tokens_list = []  # The final list of tokens
 
-    token_pattern = re.compile(r"[a-zA-Z]+(\^-?[0-9]+)?|/|\*|\([^()]*\)")
+    # The printer writes an empty numerator as "1" (e.g. "1/s") and non-integer powers as
+    # a fraction in brackets (e.g. "m^(1/2)"), both have to be accepted back
+    has_bare_numerator = unit_string.startswith("1/")
+    if has_bare_numerator:
+        unit_string = unit_string[1:]
+
+    fraction = r"\^\(-?[0-9]+/[0-9]+\)"
+    token_pattern = re.compile(
+        r"[a-zA-Z]+(\^-?[0-9]+|{0})?|/|\*|\(([^()]|{0})*\)".format(fraction))
     bracket_enclosed_expression_pattern = re.compile(r"\(.*?\)")
-    unit_with_exponent_pattern = re.compile(r"[a-zA-Z]+\^-?[0-9]+")
+    unit_with_exponent_pattern = re.compile(r"[a-zA-Z]+(\^-?[0-9]+|{})".format(fraction))
     operator_pattern = re.compile(r"[/*]")
 
     # Check if the input only consists of valid token strings
@@ -171,6 +179,9 @@ def __parse_unit_string_to_list(unit_string: str) -> List[Union[str, List]]:
             raw_tokens_list.append([unit_and_exponent[0], "^", unit_and_exponent[1]])
         else:
             raw_tokens_list.append(token)
+
+    if has_bare_numerator:
+        raw_tokens_list.insert(0, "1")
 
     # At this stage, except for when an explicit bracket is present, no grouping of tokens
     # has occurred yet. The following code checks for expressions connected with implicit
@@ -277,7 +288,7 @@ def __evaluate_unit_tree(tree: Expression) -> Dict[str, int]:
     units = OrderedDict()
     if isinstance(tree, Expression) and tree.operator == "^":
         # When a unit with an exponent is found, add it to the dictionary object
-        units[tree.left] = int(tree.right)
+        units[tree.left] = __power_str2num(tree.right)
     elif isinstance(tree, Expression) and tree.operator in ["*", "/"]:
         for unit, exponent in __evaluate_unit_tree(tree.left).items():
             units[unit] = exponent
@@ -285,7 +296,7 @@ def __evaluate_unit_tree(tree: Expression) -> Dict[str, int]:
             start_exponent_from = units[unit] if unit in units else 0
             plus_or_minus = 1 if tree.operator == "*" else -1
             units[unit] = start_exponent_from + plus_or_minus * exponent
-    else:  # just a string then count it
+    elif tree != "1":  # just a string then count it, a bare "1" numerator has no unit
         units[tree] = 1
     return units
 
@@ -354,6 +365,14 @@ def __try_pack(unit, pre_defined):
         if not unit.get(name, 0):
             return 0
     return exponent
+
+
+def __power_str2num(power: str):
+    """Read the power of a unit, an integer or a fraction in brackets such as (1/2)"""
+
+    if power.startswith("("):
+        return float(Fraction(power[1:-1]))
+    return int(power)
 
 
 def __power_num2str(power) -> str:
